@@ -258,8 +258,7 @@ theorem single_recv_row (i : Nat) (hi : i < e.topo.n) :
 
 /-- **C08.1, single router**: every stored receiver index is a node -/
 theorem single_recv_lt (T : TopoOk e.topo) (L : Fs.Router.Laws (routerOps S))
-    (hlow : ∀ i q, Fs.Router.cand (routerOps S) e.mask f i q = true →
-      S.lt S.lowest (S.div (S.sub (f i) (f q.1)) q.2) = true)
+    (hlow : Fs.C04.HLow S e f)
     (i : Nat) (hi : i < e.topo.n) (r : Nat) (hr : r ∈ (singleRouter S e par f).recv i) :
     r < e.topo.n := by
   have hg := Fs.C06.singleRouter_graph S e par f L T.nb_lt hlow
@@ -270,8 +269,7 @@ theorem single_recv_lt (T : TopoOk e.topo) (L : Fs.Router.Laws (routerOps S))
 masked nodes as donors of themselves, and in both a pit is a donor of itself): the donors of a
 node fit in the `nmax + 1` columns of the donor table -/
 theorem single_donors_row (T : TopoOk e.topo) (L : Fs.Router.Laws (routerOps S))
-    (hlow : ∀ i q, Fs.Router.cand (routerOps S) e.mask f i q = true →
-      S.lt S.lowest (S.div (S.sub (f i) (f q.1)) q.2) = true)
+    (hlow : Fs.C04.HLow S e f)
     (r : Nat) (hr : r < e.topo.n) :
     ((singleRouter S e par f).donors r).length ≤ (e.topo.nbrs r).length + 1 ∧
     ((singleRouter S e par f).donors r).length ≤ e.topo.nmax + 1 := by
@@ -295,8 +293,7 @@ theorem single_donors_row (T : TopoOk e.topo) (L : Fs.Router.Laws (routerOps S))
 
 /-- **C08.2, single router**: every stored donor index is a node -/
 theorem single_donors_lt (T : TopoOk e.topo) (L : Fs.Router.Laws (routerOps S))
-    (hlow : ∀ i q, Fs.Router.cand (routerOps S) e.mask f i q = true →
-      S.lt S.lowest (S.div (S.sub (f i) (f q.1)) q.2) = true)
+    (hlow : Fs.C04.HLow S e f)
     (r : Nat) (hr : r < e.topo.n) (d : Nat) (hd : d ∈ (singleRouter S e par f).donors r) :
     d < e.topo.n :=
   ((Fs.C06.mem_donors (Fs.C06.singleRouter_graph S e par f L T.nb_lt hlow) r hr d).mp hd).1
@@ -343,8 +340,7 @@ theorem multi_orders (S : Scalar α) (p : α) (e : Env α) (f : Nat → α) (T :
 /-- **C08.3, single router** (both variants) -/
 theorem single_orders (S : Scalar α) (e : Env α) (par : Bool) (f : Nat → α) (T : TopoOk e.topo)
     (L : Fs.Router.Laws (routerOps S))
-    (hlow : ∀ i q, Fs.Router.cand (routerOps S) e.mask f i q = true →
-      S.lt S.lowest (S.div (S.sub (f i) (f q.1)) q.2) = true) :
+    (hlow : Fs.C04.HLow S e f) :
     OrdersFit e.topo.n (singleRouter S e par f) := by
   obtain ⟨b1, b2, _⟩ := Fs.C06.singleRouter_bfs S e par f L T.nb_lt hlow
   exact ordersFit_of_perm (Fs.C06.single_dfs S e par f L T.nb_lt hlow).1 b1 b2
@@ -610,8 +606,7 @@ theorem multi_fits (S : Scalar α) (p : α) (e : Env α) (f : Nat → α) (T : T
 in `nmax + 1` columns, orders in `n` entries, all indices nodes -/
 theorem single_fits (S : Scalar α) (e : Env α) (par : Bool) (f : Nat → α) (T : TopoOk e.topo)
     (L : Fs.Router.Laws (routerOps S))
-    (hlow : ∀ i q, Fs.Router.cand (routerOps S) e.mask f i q = true →
-      S.lt S.lowest (S.div (S.sub (f i) (f q.1)) q.2) = true) :
+    (hlow : Fs.C04.HLow S e f) :
     TablesFit e.topo.n 1 (e.topo.nmax + 1) (singleRouter S e par f) where
   recv_len i hi := by rw [(single_recv_row S e par f i hi).1]; exact ⟨Nat.le_refl _, Nat.le_refl _⟩
   rdist_len i hi := by
@@ -652,9 +647,8 @@ theorem exTopoOk : TopoOk exEnv.topo where
       decide
     exact fun i j hi hj => h i hi j hj
 
-theorem exLow : ∀ i q, Fs.Router.cand (routerOps exS) exEnv.mask exElev i q = true →
-    exS.lt exS.lowest (exS.div (exS.sub (exElev i) (exElev q.1)) q.2) = true := by
-  intro i q h
+theorem exLow : Fs.C04.HLow exS exEnv exElev := by
+  intro i _ q _ h
   simp only [Fs.Router.cand, routerOps, exS, Fs.C04.exS, Bool.and_eq_true, decide_eq_true_eq] at h ⊢
   omega
 
